@@ -31,6 +31,10 @@ pub struct FnSpec {
     /// the shape dead-code removal and other editing leave behind.  Positions stay dense.
     #[serde(default)]
     pub gaps: Vec<(usize, usize)>,
+    /// the function carries this index (`Function::set_index`), as one taken out of a `Program`
+    /// does; None = a free-standing function
+    #[serde(default)]
+    pub index: Option<usize>,
 }
 
 impl FnSpec {
@@ -84,7 +88,11 @@ impl FnSpec {
     }
 
     pub fn build(&self) -> Result<il::Function, String> {
-        Ok(il::Function::new(self.address, self.build_cfg()?))
+        let mut f = il::Function::new(self.address, self.build_cfg()?);
+        if self.index.is_some() {
+            f.set_index(self.index);
+        }
+        Ok(f)
     }
 
     pub fn render(&self) -> String {
@@ -188,6 +196,8 @@ pub struct IlParams {
     pub index_gaps_permille: u32,
     /// half of the generated nops are placeholders for an assignment (`Nop { placeholder: Some(..) }`)
     pub nop_placeholders: bool,
+    /// half of the functions carry a function index (as if taken out of a `Program`)
+    pub function_index: bool,
 }
 
 impl Default for IlParams {
@@ -214,6 +224,7 @@ impl Default for IlParams {
             raw_ashr: false,
             index_gaps_permille: 0,
             nop_placeholders: false,
+            function_index: false,
         }
     }
 }
@@ -631,6 +642,7 @@ pub fn gen_fn(t: &mut Tape, p: &IlParams) -> GenFn {
             entry: Some(0),
             exit,
             gaps,
+            index: if p.function_index && t.chance(1, 2) { Some(t.below(4)) } else { None },
         },
         pool,
     }
